@@ -145,9 +145,11 @@ def sstep (c : Ctx) (prog : List Insn) (nS : Nat) (pc ix : Nat) (slots astk : Li
   | some .contPrev => if ix != c.pos || c.skipped then some (.fail stack) else some (.run (pc + 1) ix slots astk stack)
 
 inductive Big2 (c : Ctx) (prog : List Insn) (nS : Nat) : SCfg → Ans → Prop where
-  | done (pc ix : Nat) (slots astk : List Nat) (stack : List SBranch) :
-      prog[pc]? = some .end_ → 1 < nS → slots.length = nS →
-      Big2 c prog nS (.run pc ix slots astk stack) (.matched (capSaves slots c.pos))
+  /-- `End`: the answer is the (capped) slot vector truncated to any `k` cells — the caller of the VM
+      (`Regex::captures`) truncates to the capture slots; the auxiliary slots beyond are not observable -/
+  | done (pc ix : Nat) (slots astk : List Nat) (stack : List SBranch) (k : Nat) :
+      prog[pc]? = some .end_ → 1 < k → k ≤ nS → slots.length = nS →
+      Big2 c prog nS (.run pc ix slots astk stack) (.matched ((capSaves slots c.pos).take k))
   | step (pc ix : Nat) (slots astk : List Nat) (stack : List SBranch) (cfg' : SCfg) (a : Ans) :
       sstep c prog nS pc ix slots astk stack = some cfg' → Big2 c prog nS cfg' a →
       Big2 c prog nS (.run pc ix slots astk stack) a
@@ -156,13 +158,13 @@ inductive Big2 (c : Ctx) (prog : List Insn) (nS : Nat) : SCfg → Ans → Prop w
       Big2 c prog nS (.run b.pc b.ix b.slots b.astk rest) a → Big2 c prog nS (.fail (b :: rest)) a
 
 /-- The outcomes the link theorem allows: a resource stop, or the abstract answer — where a match
-    reports a slot vector whose first `nS` cells are the abstract ones (the cells beyond hold the
-    auxiliary stack, which `Regex::captures` truncates away). -/
+    reports a slot vector of which the abstract answer is a prefix (the cells beyond hold auxiliary
+    slots and the auxiliary stack, which `Regex::captures` truncates away). -/
 def Good2 (nS : Nat) (out : Outcome) (a : Ans) : Prop :=
   out = .outOfFuel ∨ out = .errStack ∨ out = .errLimit ∨
     match a with
     | .noMatch => out = .noMatch
-    | .matched sl => ∃ saves, out = .matched saves ∧ saves.take nS = sl
+    | .matched sl => ∃ saves, out = .matched saves ∧ saves.take sl.length = sl
 
 /-- every `Delegate` of the program reads and writes only ordinary slots: running its oracle on the
     flat vector and on its first `nS` cells gives the same position and the same group pairs -/
